@@ -40,6 +40,23 @@ Proof.
   - rewrite Nat.add_succ_r. destruct l; [rewrite !skipn_nil; reflexivity|]. cbn [skipn]. apply IH.
 Qed.
 
+Lemma In_firstn : forall (A : Type) (x : A) k l, In x (firstn k l) -> In x l.
+Proof.
+  intros A x k. induction k as [|k IH]; intros l H; [destruct H|].
+  destruct l as [|a l]; [destruct H|]. cbn [firstn] in H. destruct H as [->|H]; [left; reflexivity|right; apply IH, H].
+Qed.
+
+Lemma In_skipn : forall (A : Type) (x : A) k l, In x (skipn k l) -> In x l.
+Proof.
+  intros A x k l H. rewrite <- (firstn_skipn k l). apply in_or_app. right. exact H.
+Qed.
+
+Lemma skipn_nth_cons : forall (l : list Z) k, (k < length l)%nat -> skipn k l = nth k l 0 :: skipn (S k) l.
+Proof.
+  induction l as [|a l IH]; intros k Hk; cbn [length] in Hk; [lia|].
+  destruct k; [reflexivity|]. cbn [skipn nth]. apply IH. lia.
+Qed.
+
 Lemma repeat_app_plus : forall (A : Type) (x : A) a b, repeat x a ++ repeat x b = repeat x (a + b).
 Proof. intros. symmetry. apply repeat_app. Qed.
 
@@ -179,3 +196,361 @@ Proof.
   - rewrite skipn_length. lia.
   - rewrite skipn_length. unfold loop_fuel. lia.
 Qed.
+
+(* ---------------------------------------------------------------- words and counts *)
+
+Lemma le_word_nonneg : forall bs, Forall (fun b => 0 <= b) bs -> 0 <= le_word bs.
+Proof. induction 1; cbn [le_word]; lia. Qed.
+
+Lemma le_word_zero : forall bs, Forall (fun b => 0 <= b) bs -> (le_word bs = 0 <-> Forall (fun b => b = 0) bs).
+Proof.
+  induction 1 as [|b t Hb Ht IH]; cbn [le_word].
+  - split; [constructor | reflexivity].
+  - pose proof (le_word_nonneg t Ht). split.
+    + intros H0. constructor; [lia|]. apply IH. lia.
+    + intros Hz. inversion Hz; subst. apply IH in H3. lia.
+Qed.
+
+Lemma count_leading_nonneg : forall w, 0 <= count_leading w.
+Proof. induction w as [|b t IH]; cbn [count_leading]; [lia|]. destruct (b =? 0); lia. Qed.
+
+Lemma cl_app_zeros : forall x l, Forall (fun b => b = 0) x ->
+  count_leading (x ++ l) = Z.of_nat (length x) + count_leading l.
+Proof.
+  induction 1 as [|b t Hb Ht IH]; [cbn; lia|]. subst b. cbn [app count_leading length].
+  change (0 =? 0) with true. cbv iota. rewrite IH. lia.
+Qed.
+
+Lemma cl_app_nz : forall x l, ~ Forall (fun b => b = 0) x ->
+  count_leading (x ++ l) < Z.of_nat (length x).
+Proof.
+  induction x as [|b t IH]; intros l Hn; [exfalso; apply Hn; constructor|].
+  cbn [app count_leading length]. destruct (b =? 0) eqn:Hb; [|lia].
+  apply Z.eqb_eq in Hb. assert (~ Forall (fun b => b = 0) t) by (intros Hf; apply Hn; constructor; assumption).
+  specialize (IH l H). lia.
+Qed.
+
+Lemma cl_app_nz_eq : forall x l l', ~ Forall (fun b => b = 0) x ->
+  count_leading (x ++ l) = count_leading (x ++ l').
+Proof.
+  induction x as [|b t IH]; intros l l' Hn; [exfalso; apply Hn; constructor|].
+  cbn [app count_leading]. destruct (b =? 0) eqn:Hb; [|reflexivity].
+  apply Z.eqb_eq in Hb. f_equal. apply IH. intros Hf; apply Hn; constructor; assumption.
+Qed.
+
+Lemma Forall_zero_rev : forall x, Forall (fun b : Z => b = 0) x <-> Forall (fun b => b = 0) (rev x).
+Proof.
+  intros x. rewrite !Forall_forall. split; intros H b Hb; apply H; [apply in_rev|apply in_rev in Hb]; assumption.
+Qed.
+
+(* ---------------------------------------------------------------- reads inside the window *)
+
+Section Reads.
+  Variables (m : list Z) (off n : Z).
+  Hypothesis Hs : slice_ok m off n.
+  Hypothesis Hb : bytes_ok m.
+  Let w := window m off n.
+
+  Definition sk (i : Z) : list Z := skipn (Z.to_nat i) w.
+  Definition pf (j : Z) : list Z := firstn (Z.to_nat j) w.
+
+  Lemma w_length : Z.of_nat (length w) = n.
+  Proof. destruct (slice_split m off n Hs) as (pre & win & post & _ & _ & Hwin & Hw & _). subst w. rewrite Hw. exact Hwin. Qed.
+
+  Lemma w_nonneg : Forall (fun b => 0 <= b) w.
+  Proof.
+    subst w. unfold window. apply Forall_forall. intros b Hin.
+    apply In_firstn in Hin. assert (In b m) by (apply In_skipn in Hin; exact Hin).
+    unfold bytes_ok in Hb. rewrite Forall_forall in Hb. apply Hb in H. lia.
+  Qed.
+
+  Lemma nth_error_w : forall i, 0 <= i < n ->
+    nth_error m (Z.to_nat (off + i)) = Some (nth (Z.to_nat i) w 0).
+  Proof.
+    intros i Hi. destruct (slice_split m off n Hs) as (pre & win & post & Hm & Hpre & Hwin & Hw & _).
+    subst w. rewrite Hw. rewrite Hm at 1.
+    rewrite nth_error_app2 by lia.
+    replace (Z.to_nat (off + i) - length pre)%nat with (Z.to_nat i) by lia.
+    rewrite nth_error_app1 by lia.
+    apply nth_error_nth'. lia.
+  Qed.
+
+  Lemma rd_byte_in : forall i, 0 <= i < n -> rd_byte m off n i = Ok (nth (Z.to_nat i) w 0).
+  Proof.
+    intros i Hi. unfold rd_byte, in_window.
+    replace ((0 <=? i) && (i <? n)) with true by (symmetry; apply andb_true_intro; split; [apply Z.leb_le|apply Z.ltb_lt]; lia).
+    rewrite nth_error_w by assumption. reflexivity.
+  Qed.
+
+  Lemma rd_byte_out : forall i, ~ (0 <= i < n) -> rd_byte m off n i = PanicIndex.
+  Proof.
+    intros i Hi. unfold rd_byte, in_window.
+    destruct (0 <=? i) eqn:H1; destruct (i <? n) eqn:H2; cbn [andb]; try reflexivity.
+    apply Z.leb_le in H1. apply Z.ltb_lt in H2. lia.
+  Qed.
+
+  Lemma rd_word_in : forall i, 0 <= i -> i + 8 <= n ->
+    rd_word m off n i = Ok (le_word (firstn 8 (sk i))) /\ length (firstn 8 (sk i)) = 8%nat.
+  Proof.
+    intros i Hi Hin. unfold rd_word, in_window, word_inside.
+    replace ((0 <=? i) && (i <? n)) with true by (symmetry; apply andb_true_intro; split; [apply Z.leb_le|apply Z.ltb_lt]; lia).
+    replace ((0 <=? i) && (i + 8 <=? n)) with true by (symmetry; apply andb_true_intro; split; apply Z.leb_le; lia).
+    destruct (slice_split m off n Hs) as (pre & win & post & Hm & Hpre & Hwin & Hw & _).
+    assert (Heq : firstn 8 (skipn (Z.to_nat (off + i)) m) = firstn 8 (sk i)).
+    { unfold sk. subst w. rewrite Hw. rewrite Hm.
+      replace (Z.to_nat (off + i)) with (Z.to_nat i + length pre)%nat by lia.
+      rewrite <- skipn_skipn. rewrite skipn_app_exact by reflexivity.
+      rewrite skipn_app. rewrite firstn_app.
+      rewrite skipn_length. replace (8 - (length win - Z.to_nat i))%nat with 0%nat by lia.
+      cbn [firstn]. apply app_nil_r. }
+    rewrite Heq.
+    assert (Hl : length (firstn 8 (sk i)) = 8%nat).
+    { rewrite firstn_length. unfold sk. rewrite skipn_length. pose proof w_length. lia. }
+    rewrite Hl. cbn. split; reflexivity.
+  Qed.
+
+  Lemma sk_cons : forall i, 0 <= i < n -> sk i = nth (Z.to_nat i) w 0 :: sk (i + 1).
+  Proof.
+    intros i Hi. unfold sk. pose proof w_length as Hl.
+    replace (Z.to_nat (i + 1)) with (S (Z.to_nat i)) by lia.
+    apply skipn_nth_cons. lia.
+  Qed.
+
+  Lemma sk_end : forall i, n <= i -> sk i = [].
+  Proof. intros i Hi. unfold sk. apply skipn_all2. pose proof w_length. lia. Qed.
+
+  Lemma sk_word : forall i, 0 <= i -> sk i = firstn 8 (sk i) ++ sk (i + 8).
+  Proof.
+    intros i Hi. unfold sk. replace (Z.to_nat (i + 8)) with (8 + Z.to_nat i)%nat by lia.
+    rewrite <- skipn_skipn. symmetry. apply firstn_skipn.
+  Qed.
+
+  Lemma sk_nonneg : forall i, Forall (fun b => 0 <= b) (firstn 8 (sk i)).
+  Proof.
+    intros i. apply Forall_forall. intros b Hin. apply In_firstn in Hin.
+    unfold sk in Hin. pose proof w_nonneg as Hw. rewrite Forall_forall in Hw. apply Hw.
+    apply In_skipn in Hin. exact Hin.
+  Qed.
+
+  (* ---- LeadingZeroes *)
+
+  Lemma lz_scan_run : forall fuel i, 0 <= i -> i + count_leading (sk i) < n ->
+    (Z.to_nat (count_leading (sk i)) < fuel)%nat ->
+    lz_scan fuel m off n i = Ok (i + count_leading (sk i)).
+  Proof.
+    induction fuel as [|f IH]; intros i Hi Hc Hf; [lia|].
+    pose proof (count_leading_nonneg (sk i)) as Hnn.
+    cbn [lz_scan]. unfold lz_scan_idx, lz_scan_cond, lz_scan_step, lz_ret0.
+    rewrite rd_byte_in by lia. cbn [bind].
+    assert (Hin : 0 <= i < n) by lia.
+    revert Hc Hf Hnn. rewrite (sk_cons i) by exact Hin. cbn [count_leading].
+    destruct (nth (Z.to_nat i) w 0 =? 0) eqn:Hz; intros Hc Hf Hnn.
+    - pose proof (count_leading_nonneg (sk (i + 1))).
+      rewrite IH by lia. f_equal. lia.
+    - f_equal. lia.
+  Qed.
+
+  Lemma lz_tail_run : forall fuel i, 0 <= i <= n -> (Z.to_nat (n - i) < fuel)%nat ->
+    lz_tail fuel m off n i = Ok (i + count_leading (sk i)).
+  Proof.
+    induction fuel as [|f IH]; intros i Hi Hf; [lia|].
+    cbn [lz_tail]. unfold lz_tail_idx, lz_tail_cond, lz_tail_step, lz_ret1.
+    destruct (Z.eq_dec i n) as [->|Hne].
+    - rewrite rd_byte_out by lia. rewrite Z.ltb_irrefl. cbn [andb orb cond_res bind].
+      rewrite sk_end by lia. cbn [count_leading]. f_equal. lia.
+    - rewrite rd_byte_in by lia. cbn [cond_res bind].
+      replace (i <? n) with true by (symmetry; apply Z.ltb_lt; lia). cbn [andb].
+      rewrite (sk_cons i) by lia. cbn [count_leading].
+      destruct (nth (Z.to_nat i) w 0 =? 0) eqn:Hz.
+      + rewrite IH by lia. f_equal. lia.
+      + f_equal. lia.
+  Qed.
+
+  Lemma lz_words_run : forall fuel k q, 0 <= k <= q -> 8 * q <= n -> (Z.to_nat (q - k) < fuel)%nat ->
+    exists r, lz_words fuel m off n (8 * q) (8 * k) = Ok r /\
+      match r with
+      | inl x => x = 8 * k + count_leading (sk (8 * k))
+      | inr i => i = 8 * q /\ 8 * k + count_leading (sk (8 * k)) = 8 * q + count_leading (sk (8 * q))
+      end.
+  Proof.
+    induction fuel as [|f IH]; intros k q Hk Hq Hf; [lia|].
+    cbn [lz_words]. unfold lz_for0, lz_widx, lz_nz, lz_step0.
+    destruct (8 * k <? 8 * q) eqn:Hlt.
+    - apply Z.ltb_lt in Hlt.
+      destruct (rd_word_in (8 * k)) as [Hrd Hl8]; [lia|lia|]. rewrite Hrd. cbn [bind].
+      pose proof (le_word_zero _ (sk_nonneg (8 * k))) as Hz.
+      destruct (le_word (firstn 8 (sk (8 * k))) =? 0) eqn:Hv; cbn [negb].
+      + apply Z.eqb_eq in Hv. apply Hz in Hv.
+        replace (8 * k + 8) with (8 * (k + 1)) by lia.
+        destruct (IH (k + 1) q) as (r & Hr & Hm); try lia.
+        exists r. split; [exact Hr|].
+        assert (Hc : count_leading (sk (8 * k)) = 8 + count_leading (sk (8 * (k + 1)))).
+        { rewrite (sk_word (8 * k)) by lia. rewrite cl_app_zeros by assumption. rewrite Hl8.
+          replace (8 * k + 8) with (8 * (k + 1)) by lia. lia. }
+        destruct r; lia.
+      + apply Z.eqb_neq in Hv. assert (Hnz : ~ Forall (fun b => b = 0) (firstn 8 (sk (8 * k)))) by (intros Hf'; apply Hv, Hz, Hf').
+        assert (Hc : count_leading (sk (8 * k)) < 8).
+        { rewrite (sk_word (8 * k)) by lia. pose proof (cl_app_nz _ (sk (8 * k + 8)) Hnz). lia. }
+        pose proof (count_leading_nonneg (sk (8 * k))).
+        rewrite lz_scan_run; try lia; [|unfold loop_fuel; lia].
+        cbn [bind]. eexists. split; [reflexivity|]. reflexivity.
+    - apply Z.ltb_ge in Hlt. assert (k = q) by lia. subst k.
+      eexists. split; [reflexivity|]. split; reflexivity.
+  Qed.
+
+  Lemma leading_zeroes_w : leading_zeroes m off n = Ok (count_leading w).
+  Proof.
+    destruct Hs as (Ho & Hn & Hl).
+    unfold leading_zeroes, lz_m.
+    destruct (ldiff7_bounds n Hn) as (q & Hq & Hq0 & Hqn). rewrite Hq.
+    change 0 with (8 * 0) at 1.
+    destruct (lz_words_run (loop_fuel n) 0 q) as (r & Hr & Hm); try lia; [unfold loop_fuel; lia|].
+    rewrite Hr. cbn [bind].
+    assert (Hsk0 : sk (8 * 0) = w) by reflexivity. rewrite Hsk0 in Hm.
+    destruct r as [x|i].
+    - f_equal. lia.
+    - destruct Hm as [-> Hm]. rewrite lz_tail_run; [f_equal; lia | lia | unfold loop_fuel; lia].
+  Qed.
+  (* ---- TrailingZeroes *)
+
+  Lemma pf_snoc : forall j, 0 < j <= n -> pf j = pf (j - 1) ++ [nth (Z.to_nat (j - 1)) w 0].
+  Proof.
+    intros j Hj. unfold pf. pose proof w_length as Hl.
+    replace (Z.to_nat j) with (S (Z.to_nat (j - 1))) by lia.
+    assert (Hk : (Z.to_nat (j - 1) < length w)%nat) by lia.
+    revert Hk. generalize (Z.to_nat (j - 1)) as k. generalize w as l. clear.
+    induction l as [|a l IH]; intros k Hk; cbn [length] in Hk; [lia|].
+    destruct k; [reflexivity|]. cbn [firstn nth app]. f_equal. apply IH. lia.
+  Qed.
+
+  Lemma pf_word : forall i, 0 <= i -> i + 8 <= n -> pf (i + 8) = pf i ++ firstn 8 (sk i).
+  Proof.
+    intros i Hi Hin. unfold pf, sk.
+    replace (Z.to_nat (i + 8)) with (Z.to_nat i + 8)%nat by lia.
+    generalize (Z.to_nat i) as k. generalize w as l. clear.
+    induction l as [|a l IH]; intros k.
+    - rewrite skipn_nil, !firstn_nil. reflexivity.
+    - destruct k; [cbn [firstn skipn app Nat.add]; reflexivity|].
+      cbn [Nat.add firstn skipn app]. f_equal. apply IH.
+  Qed.
+
+  Lemma ct_snoc : forall l b, count_trailing (l ++ [b]) = if b =? 0 then 1 + count_trailing l else 0.
+  Proof. intros. unfold count_trailing. rewrite rev_app_distr. reflexivity. Qed.
+
+  Lemma ct_nonneg : forall l, 0 <= count_trailing l.
+  Proof. intros. apply count_leading_nonneg. Qed.
+
+  (* for data[i+7] == 0 { i--; nz++ }; return nz   with j = i + 8 *)
+  Lemma tz_scan_run : forall fuel j nz, j <= n -> count_trailing (pf j) < j ->
+    (Z.to_nat (count_trailing (pf j)) < fuel)%nat ->
+    tz_scan fuel m off n (j - 8) nz = Ok (nz + count_trailing (pf j)).
+  Proof.
+    induction fuel as [|f IH]; intros j nz Hj Hc Hf; [lia|].
+    pose proof (ct_nonneg (pf j)) as Hnn.
+    cbn [tz_scan]. unfold tz_scan_idx, tz_scan_cond, tz_scan_i, tz_scan_nz, tz_ret0.
+    replace (j - 8 + 7) with (j - 1) by lia.
+    rewrite rd_byte_in by lia. cbn [bind].
+    assert (Hin : 0 < j <= n) by lia.
+    revert Hc Hf Hnn. rewrite (pf_snoc j) by exact Hin. rewrite ct_snoc.
+    destruct (nth (Z.to_nat (j - 1)) w 0 =? 0) eqn:Hz; intros Hc Hf Hnn.
+    - pose proof (ct_nonneg (pf (j - 1))).
+      replace (j - 8 - 1) with (j - 1 - 8) by lia.
+      rewrite IH by lia. f_equal. lia.
+    - f_equal. lia.
+  Qed.
+
+  (* for m--; m >= 0 && data[m] == 0; m-- { nz++ }   with j = m + 1 *)
+  Lemma tz_tail_run : forall fuel j nz, 0 <= j <= n -> (Z.to_nat j < fuel)%nat ->
+    tz_tail fuel m off n (j - 1) nz = Ok (nz + count_trailing (pf j)).
+  Proof.
+    induction fuel as [|f IH]; intros j nz Hj Hf; [lia|].
+    cbn [tz_tail]. unfold tz_tail_idx, tz_tail_cond, tz_tail_post, tz_tail_nz, tz_ret1.
+    destruct (Z.eq_dec j 0) as [->|Hne].
+    - rewrite rd_byte_out by lia. cbn [Z.sub Z.add Z.opp Z.geb Z.compare andb orb cond_res bind].
+      unfold pf. cbn [Z.to_nat firstn]. unfold count_trailing. cbn. f_equal. lia.
+    - rewrite rd_byte_in by lia. cbn [cond_res bind].
+      replace (j - 1 >=? 0) with true by (symmetry; apply Z.geb_le; lia). cbn [andb].
+      rewrite (pf_snoc j) by lia. rewrite ct_snoc.
+      destruct (nth (Z.to_nat (j - 1)) w 0 =? 0) eqn:Hz.
+      + rewrite IH by lia. f_equal. lia.
+      + f_equal. lia.
+  Qed.
+
+  Lemma ct_word_zero : forall i, 0 <= i -> i + 8 <= n ->
+    Forall (fun b => b = 0) (firstn 8 (sk i)) -> count_trailing (pf (i + 8)) = 8 + count_trailing (pf i).
+  Proof.
+    intros i Hi Hin Hz. destruct (rd_word_in i Hi Hin) as [_ Hl8].
+    rewrite pf_word by assumption. unfold count_trailing. rewrite rev_app_distr.
+    rewrite cl_app_zeros by (apply Forall_zero_rev in Hz; exact Hz).
+    rewrite rev_length, Hl8. lia.
+  Qed.
+
+  Lemma ct_word_nz : forall i, 0 <= i -> i + 8 <= n ->
+    ~ Forall (fun b => b = 0) (firstn 8 (sk i)) -> count_trailing (pf (i + 8)) < 8.
+  Proof.
+    intros i Hi Hin Hz. destruct (rd_word_in i Hi Hin) as [_ Hl8].
+    rewrite pf_word by assumption. unfold count_trailing. rewrite rev_app_distr.
+    assert (Hz' : ~ Forall (fun b => b = 0) (rev (firstn 8 (sk i)))) by (intros Hf; apply Hz, Forall_zero_rev, Hf).
+    pose proof (cl_app_nz _ (rev (pf i)) Hz') as H. rewrite rev_length, Hl8 in H. lia.
+  Qed.
+
+  (* the word loop, walking down from j = m0 + 8 k (i = j - 8) to m0 *)
+  Lemma tz_words_run : forall fuel m0 k nz, 0 <= m0 -> 0 <= k -> m0 + 8 * k <= n -> (Z.to_nat k < fuel)%nat ->
+    exists r, tz_words fuel m off n m0 (m0 + 8 * k - 8) nz = Ok r /\
+      match r with
+      | inl x => x = nz + count_trailing (pf (m0 + 8 * k))
+      | inr nz' => nz' + count_trailing (pf m0) = nz + count_trailing (pf (m0 + 8 * k))
+      end.
+  Proof.
+    induction fuel as [|f IH]; intros m0 k nz Hm Hk Hn Hf; [lia|].
+    cbn [tz_words]. unfold tz_for0, tz_widx, tz_nzword, tz_step0, tz_word_nz.
+    destruct (m0 + 8 * k - 8 >=? m0) eqn:Hge.
+    - apply Z.geb_le in Hge.
+      destruct (rd_word_in (m0 + 8 * k - 8)) as [Hrd Hl8]; [lia|lia|]. rewrite Hrd. cbn [bind].
+      pose proof (le_word_zero _ (sk_nonneg (m0 + 8 * k - 8))) as Hz.
+      destruct (le_word (firstn 8 (sk (m0 + 8 * k - 8))) =? 0) eqn:Hv; cbn [negb].
+      + apply Z.eqb_eq in Hv. apply Hz in Hv.
+        replace (m0 + 8 * k - 8 - 8) with (m0 + 8 * (k - 1) - 8) by lia.
+        destruct (IH m0 (k - 1) (nz + 8)) as (r & Hr & Hm'); try lia.
+        exists r. split; [exact Hr|].
+        pose proof (ct_word_zero (m0 + 8 * k - 8) ltac:(lia) ltac:(lia) Hv) as Hc.
+        replace (m0 + 8 * k - 8 + 8) with (m0 + 8 * k) in Hc by lia.
+        replace (m0 + 8 * k - 8) with (m0 + 8 * (k - 1)) in Hc by lia.
+        destruct r; lia.
+      + apply Z.eqb_neq in Hv.
+        assert (Hnz : ~ Forall (fun b => b = 0) (firstn 8 (sk (m0 + 8 * k - 8)))) by (intros Hf'; apply Hv, Hz, Hf').
+        pose proof (ct_word_nz (m0 + 8 * k - 8) ltac:(lia) ltac:(lia) Hnz) as Hc.
+        replace (m0 + 8 * k - 8 + 8) with (m0 + 8 * k) in Hc by lia.
+        pose proof (ct_nonneg (pf (m0 + 8 * k))).
+        rewrite tz_scan_run; try lia; [|unfold loop_fuel; lia].
+        cbn [bind]. eexists. split; [reflexivity|]. reflexivity.
+    - rewrite Z.geb_leb in Hge. apply Z.leb_gt in Hge. assert (k = 0) by lia. subst k.
+      eexists. split; [reflexivity|]. cbn beta iota. replace (m0 + 8 * 0) with m0 by lia. reflexivity.
+  Qed.
+
+  Lemma trailing_zeroes_w : trailing_zeroes m off n = Ok (count_trailing w).
+  Proof.
+    destruct Hs as (Ho & Hn & Hl).
+    unfold trailing_zeroes, tz_m, tz_i0, tz_nz0, tz_tail_init.
+    destruct (ldiff7_bounds n Hn) as (q & Hq & Hq0 & Hqn). rewrite Hq.
+    replace (n - 8) with ((n - 8 * q) + 8 * q - 8) by lia.
+    destruct (tz_words_run (loop_fuel n) (n - 8 * q) q 0) as (r & Hr & Hm); try lia; [unfold loop_fuel; lia|].
+    rewrite Hr. cbn [bind].
+    replace (n - 8 * q + 8 * q) with n in Hm by lia.
+    assert (Hpfn : pf n = w) by (unfold pf; apply firstn_all2; pose proof w_length; lia).
+    rewrite Hpfn in Hm.
+    destruct r as [x|nz].
+    - f_equal. lia.
+    - rewrite tz_tail_run; [f_equal; lia | lia | unfold loop_fuel; lia].
+  Qed.
+End Reads.
+
+(* LeadingZeroes / TrailingZeroes equal the byte-by-byte counts, with no panic and no access
+   outside the slice, for every memory of bytes, offset and length *)
+Theorem leading_zeroes_correct : forall m off n, slice_ok m off n -> bytes_ok m ->
+  leading_zeroes m off n = Ok (count_leading (window m off n)).
+Proof. intros. apply leading_zeroes_w; assumption. Qed.
+
+Theorem trailing_zeroes_correct : forall m off n, slice_ok m off n -> bytes_ok m ->
+  trailing_zeroes m off n = Ok (count_trailing (window m off n)).
+Proof. intros. apply trailing_zeroes_w; assumption. Qed.
